@@ -1,3 +1,20 @@
 # Table of claimed properties (read by mkmanifest.py).
-CLAIMED = {}
+DIFF_NOTE = ("Trusted: Lean 4.33 kernel (axioms propext, Classical.choice, Quot.sound only; audited by #print axioms on every run, no sorry/"
+             "native_decide), the translator `vx extract` (code/compatibility tables taken from the live maps of the diff package through "
+             "verif-tagged accessors), the correspondence harness (seeded generator of spec pairs in the model's encoding, renderer to Swagger JSON, "
+             "canonical multiset comparison with the real diff.Compare run in a crash-safe worker), go-openapi/spec JSON decoding. Modelled rather "
+             "than verified: the Go analyser itself (hand-written Lean transcription, one function per Go function, explicit panics, fuel), "
+             "float formatting of DiffInfo, x- extensions (oracle sweep only).")
+CLAIMED = {
+ "C12": {
+  "technique": "Lean 4 proof (identity theorem over a full executable model of the analyser) + model/implementation correspondence",
+  "text": ("Proof: `self_identity` shows for EVERY well-formed document, fuel and iteration order that a normal return of the modelled "
+           "analyser on (s, s) is the empty report (induction on fuel, Hoare triples per Go function); re-serialisation lemmas for the lists read "
+           "as sets; the five crash witnesses of the pinned tree are theorems about the repaired model. The model is tied to "
+           "cmd/swagger/commands/diff on every run: tables regenerated from live values, and the compiled model is run against diff.Compare "
+           "on ~1400 (quick) / ~18000 (thorough) generated self, re-serialised and edited pairs; totality (no panic on valid pairs) is decided "
+           "by that sweep on the real code, not by a theorem yet - labelled partial."),
+  "note": DIFF_NOTE,
+ },
+}
 NOT_YET = {}
